@@ -49,6 +49,8 @@ type vtpCase struct {
 func vtpValueClass(m map[string][]byte, v1 bool, k, v []byte) string {
 	mv, present := m[string(k)]
 	switch {
+	case len(m) == 0:
+		return "empty-state"
 	case present && v1 && len(mv) > 32:
 		if len(v) == 0 {
 			return "present-hashed-value/query-empty-value"
@@ -138,6 +140,9 @@ func TestVerifTrieProof(t *testing.T) {
 			kc := "present-keys"
 			if anyAbsent {
 				kc = "key-set-with-absent-key"
+			}
+			if len(m) == 0 {
+				kc = "empty-state"
 			}
 			var gen [][]byte
 			var gerr error
